@@ -14,6 +14,9 @@ using namespace coloquinte;
 #ifndef TALLALL
 #define TALLALL 0
 #endif
+#ifndef GAPFROM
+#define GAPFROM 2
+#endif
 #ifndef XLIM
 #define XLIM 64
 #endif
@@ -69,7 +72,7 @@ extern "C" void harness() {
   static const CellOrientation pat[4][3] = {{CellOrientation::N, CellOrientation::FS, CellOrientation::N}, {CellOrientation::N, CellOrientation::N, CellOrientation::N},
                                             {CellOrientation::FS, CellOrientation::N, CellOrientation::FS}, {CellOrientation::S, CellOrientation::FN, CellOrientation::S}};
   int gap = __verif_choice(GAPCHOICES);
-  for (int r = 0; r < NROWS; ++r) rows.push_back(Row(0, rw, r * RH + (r >= 2 ? gap * RH : 0), (r + 1) * RH + (r >= 2 ? gap * RH : 0), pat[pattern][r]));
+  for (int r = 0; r < NROWS; ++r) rows.push_back(Row(0, rw, r * RH + (r >= GAPFROM ? gap * RH : 0), (r + 1) * RH + (r >= GAPFROM ? gap * RH : 0), pat[pattern][r]));
   c.setRows(rows);
   c.addNet({0, NC - 1}, {1, 2}, {3, 4});
   ColoquinteParameters p(1);
